@@ -16,6 +16,11 @@ is not found - a refactor is never an alarm; the result then says `extraction: p
                 it is hashed, whether the collected keys are `.sort()`ed before the loop), and the `Groups` /
                 `Kerning` aliases (what `for .. in kerning`, `groups.keys()` and the serialiser walk) and
                 `Layer.contents` (contents.plist)
+  hashedIter    every `.iter()`/`.keys()`/`.values()`/`.into_iter()`/`.drain()`/`for .. in` over an identifier declared as
+                `HashSet`/`HashMap` (locals, fields, parameters, `if let Some(x) = ..field` aliases) in the four files outside
+                their test modules, with its consumer: order-insensitive (`any`, `all`, `count`, `sum`, `contains`, `min`,
+                `max`, collected into a set/map), sorted (collected into a local that is `.sort()`ed in the next statement),
+                or order-dependent (`find`, `next`, `min_by_key`, `for`, `collect` into a Vec, ...).  Needs no anchor.
 
 The tie theorems `source_*` of Norad/Props/C15.lean and Norad/Props/C10.lean (by `decide`) compare these with the
 literals of the model, i.e. they are about what the code says NOW.
@@ -140,12 +145,134 @@ def sec_iterated(src):
         raise NotFound("Layer.contents: T<Name, PathBuf>")
     rows.append(("Layer.contents", m.group(1).split("::")[-1]))
     body = ["(%s, %s)" % (lean_string(a), lean_string(b)) for a, b in rows]
-    return ("/-- (what is iterated on a result-affecting path, the collection it is) -/\n"
-            "def iteratedCollections : List (String × String) :=\n  [" + ",\n   ".join(body) + "]\n")
+    return ("/-- (what is iterated on a result-affecting path, the declared collection it is) -/\n"
+            "def declaredCollections : List (String × String) :=\n  [" + ",\n   ".join(body) + "]\n")
+
+
+# ---------------------------------------------------------------- every walk over a hashed collection
+
+HASHED = r"(?:std::collections::)?(Hash(?:Set|Map))\b"
+WALKS = ("iter", "iter_mut", "keys", "values", "values_mut", "into_iter", "into_keys", "into_values", "drain")
+# the result does not depend on the order in which the items arrive
+INSENSITIVE = {"any", "all", "count", "sum", "product", "contains", "len", "is_empty", "max", "min"}
+# adaptors that keep the stream a stream of the same items in the same order
+NEUTRAL = {"cloned", "copied", "map", "filter", "filter_map", "flat_map", "flatten", "inspect", "by_ref", "chain",
+           "as_ref", "as_str", "to_string", "to_owned", "clone", "unwrap", "unwrap_or_default"}
+ORDERED_TARGETS = ("BTreeSet", "BTreeMap", "HashSet", "HashMap")
+
+
+def hashed_names(src):
+    """identifiers declared with a hashed collection type (locals, fields, parameters), plus `if let Some(x) = ..field`
+    aliases of such fields; name -> HashSet | HashMap"""
+    names = {}
+    for m in re.finditer(r"\b(\w+)\s*:\s*(?:&\s*(?:mut\s+)?)?(?:Option<\s*)?" + HASHED + r"\s*<", src):
+        names[m.group(1)] = m.group(2)
+    for m in re.finditer(r"\blet\s+(?:mut\s+)?(\w+)\s*=\s*" + HASHED + r"\s*::\s*(?:<[^>]*>\s*::\s*)?(?:new|with_capacity|default|from)\b", src):
+        names[m.group(1)] = m.group(2)
+    for m in re.finditer(r"\blet\s+(?:mut\s+)?(\w+)\s*=[^;]*?collect::<\s*" + HASHED + r"\s*<", src):
+        names[m.group(1)] = m.group(2)
+    changed = True
+    while changed:
+        changed = False
+        for m in re.finditer(r"\b(?:if|while)\s+let\s+Some\(\s*(?:ref\s+)?(?:mut\s+)?(\w+)\s*\)\s*=\s*&?(?:mut\s+)?(?:\w+\.)*(\w+)\b", src):
+            if m.group(2) in names and m.group(1) not in names:
+                names[m.group(1)] = names[m.group(2)]
+                changed = True
+        for m in re.finditer(r"\blet\s+(?:mut\s+)?(\w+)\s*=\s*&?(?:mut\s+)?(?:\w+\.)*(\w+)\s*;", src):
+            if m.group(2) in names and m.group(1) not in names:
+                names[m.group(1)] = names[m.group(2)]
+                changed = True
+    return names
+
+
+def chain_after(src, i):
+    """method names applied at nesting depth 0 from position i up to the end of the statement; also the turbofish /
+    text of the chain (for `collect::<T>`) and the end position"""
+    depth, j, out = 0, i, []
+    while j < len(src):
+        c = src[j]
+        if c in "([{":
+            if c == "{" and depth == 0:
+                break
+            depth += 1
+        elif c in ")]}":
+            if depth == 0:
+                break
+            depth -= 1
+        elif c == ";" and depth == 0:
+            break
+        elif c == "," and depth == 0:
+            break
+        elif c == "." and depth == 0:
+            m = re.match(r"\.\s*(\w+)", src[j:])
+            if m:
+                out.append(m.group(1))
+                j += m.end() - 1
+        elif c == "?" and depth == 0:
+            pass
+        j += 1
+    return out, src[i:j], j
+
+
+def classify(kind, walk, chain, text, src, stmt_start, walk_start, stmt_end):
+    """-> consumer label; "order-insensitive" / "sorted" when the order of the walk cannot reach the result"""
+    for k, name in enumerate(chain):
+        if name in NEUTRAL:
+            continue
+        if name in INSENSITIVE:
+            return "order-insensitive"
+        if name == "collect":
+            m = re.search(r"collect::<\s*(?:std::collections::)?(\w+)", text)
+            if m and m.group(1) in ORDERED_TARGETS:
+                return "order-insensitive"
+            # collected into a local that is sorted before anything else happens to it?
+            lm = re.search(r"\blet\s+(?:mut\s+)?(\w+)\s*(?::\s*([^=;]+?))?\s*=\s*&?(?:mut\s+)?(?:\w+\s*\.\s*)*$", src[stmt_start:walk_start])
+            if lm:
+                if lm.group(2) and re.search(r"\b(BTreeSet|BTreeMap|HashSet|HashMap)\b", lm.group(2)):
+                    return "order-insensitive"
+                if re.match(r"\s*;\s*" + re.escape(lm.group(1)) + r"\.sort(?:_unstable)?\(\)\s*;", src[stmt_end:stmt_end + 200]):
+                    return "sorted"
+            return "collect"
+        return name
+    return "walk"
+
+
+def sec_hashed_iter(src):
+    rows = []
+    for key, fname in (("groups", "groups.rs"), ("upconv", "upconversion.rs"), ("kerning", "kerning.rs"), ("layer", "layer.rs")):
+        text = strip_comments(src[key])
+        # the test modules are not result-affecting paths
+        cut = re.search(r"#\[cfg\(test\)\]\s*mod\s+\w+", text)
+        if cut:
+            text = text[:cut.start()]
+        names = hashed_names(text)
+        for name, kind in sorted(names.items()):
+            for m in re.finditer(r"\b" + re.escape(name) + r"\s*\.\s*(" + "|".join(WALKS) + r")\s*\(\s*\)", text):
+                # `for pat in name.iter() {`: the loop body sees the items in walk order
+                before = text[max(0, m.start() - 80):m.start()]
+                stmt_start = max(text.rfind(";", 0, m.start()), text.rfind("{", 0, m.start()), text.rfind("}", 0, m.start())) + 1
+                chain, ctext, end = chain_after(text, m.end())
+                if re.search(r"\bfor\s+[^;{}]*\bin\s+&?(?:mut\s+)?(?:\w+\.)*$", before) and not chain:
+                    label = "for"
+                else:
+                    label = classify(kind, m.group(1), chain, ctext, text, stmt_start, m.start(), end)
+                rows.append(("%s:%s.%s" % (fname, name, m.group(1)),
+                             "Hash." + label if label in ("order-insensitive", "sorted") else "%s.%s.%s" % (kind, m.group(1), label)))
+            for m in re.finditer(r"\bfor\s+[^;{}]*?\bin\s+&?(?:mut\s+)?(?:self\s*\.\s*)?" + re.escape(name) + r"\s*\{", text):
+                rows.append(("%s:%s" % (fname, name), "%s.for" % kind))
+            # handed over as an iterable: `.chain(name)`, `.zip(&name)`
+            for m in re.finditer(r"\.\s*(chain|zip)\s*\(\s*&?(?:mut\s+)?(?:self\s*\.\s*)?" + re.escape(name) + r"\s*\)", text):
+                rows.append(("%s:%s" % (fname, name), "%s.into_iter.%s" % (kind, m.group(1))))
+    body = ["(%s, %s)" % (lean_string(a), lean_string(b)) for a, b in rows]
+    return ("/-- every walk (`iter`/`keys`/`values`/`into_iter`/`drain`/`for .. in`) over a `HashSet`/`HashMap` in the four files\n"
+            "    outside their test modules, with what consumes it: `Hash.order-insensitive` (any/all/count/sum/contains/min/max/\n"
+            "    collected into a set or map), `Hash.sorted` (collected and `.sort()`ed at once), otherwise type.walk.consumer -/\n"
+            "def hashedIterations : List (String × String) :=\n  [" + ",\n   ".join(body) + "]\n")
 
 
 SECTIONS = [("validator", sec_validator), ("skipPrefixes", sec_skip), ("newNames", sec_new_names),
-            ("knownLegacy", sec_known), ("robofab", sec_robofab), ("iterated", sec_iterated)]
+            ("knownLegacy", sec_known), ("robofab", sec_robofab), ("iterated", sec_iterated),
+            ("hashedIter", sec_hashed_iter)]
 
 HEADER = """/-!
 GENERATED by tools/extract_kern_consts.py from norad's src/groups.rs, src/upconversion.rs, src/kerning.rs, src/layer.rs on every
@@ -178,7 +305,9 @@ def generate(repo):
             body = pinned[name]
             fell_back.append("%s (%s)" % (name, ex))
         parts.append("-- BEGIN %s\n%s-- END %s\n" % (name, body, name))
-    return HEADER + "\n".join(parts) + "\nend Generated.KernConsts\n", fell_back
+    footer = ("\n/-- everything iterated on a result-affecting path: the declared collections and every walk over a hashed one -/\n"
+              "def iteratedCollections : List (String × String) := declaredCollections ++ hashedIterations\n")
+    return HEADER + "\n".join(parts) + footer + "\nend Generated.KernConsts\n", fell_back
 
 
 def run():
